@@ -85,6 +85,51 @@ theorem InfoFork.decode_encode' (i : InfoFork) (h : i.WF) (hn : i.name.length + 
   rw [e3, if_neg (by omega)]
   simp [drop_app_ge, *]
 
+-- ---------------------------------------------------------------- flattened file header
+
+
+theorem ffoDecode_header (fc : Nat) (i : InfoFork) (ds : Nat) (h : i.WF) (hn : i.name.length + 74 < 65536)
+    (hfc : fc < 65536) (hds : ds < 4294967296) (rest : Bytes) :
+    ffoDecode (ffoHeader fc i ds ++ rest) = .ok (fc, i, ds) := by
+  have hil := InfoFork.encode_length i h.1
+  have hsz : i.size = 74 + i.name.length + i.comment.length := rfl
+  have hcl := h.2.2
+  generalize hE : i.encode = E at hil
+  have hdec : InfoFork.decode E = .ok i := hE ▸ InfoFork.decode_encode' i h hn
+  have hP : ffoHeader fc i ds ++ rest =
+      [0x46, 0x49, 0x4C, 0x50, 0, 1, 0,0,0,0,0,0,0,0,0,0,0,0,0,0,0,0] ++ (be16 fc ++ ([0x49, 0x4E, 0x46, 0x4F, 0, 0, 0, 0, 0, 0, 0, 0] ++ (be32 i.size ++
+        (E ++ ([0x44, 0x41, 0x54, 0x41, 0, 0, 0, 0, 0, 0, 0, 0] ++ (be32 ds ++ rest)))))) := by
+    simp [ffoHeader, hE, be16, List.replicate]; decide
+  rw [hP]
+  generalize hQ : [0x46, 0x49, 0x4C, 0x50, 0, 1, 0,0,0,0,0,0,0,0,0,0,0,0,0,0,0,0] ++ (be16 fc ++ ([0x49, 0x4E, 0x46, 0x4F, 0, 0, 0, 0, 0, 0, 0, 0] ++ (be32 i.size ++
+        (E ++ ([0x44, 0x41, 0x54, 0x41, 0, 0, 0, 0, 0, 0, 0, 0] ++ (be32 ds ++ rest)))))) = Q
+  have hQl : Q.length = 40 + i.size + 16 + rest.length := by
+    subst hQ; simp [hil, hsz]; omega
+  have d22 : Q.drop 22 = be16 fc ++ ([0x49, 0x4E, 0x46, 0x4F, 0, 0, 0, 0, 0, 0, 0, 0] ++ (be32 i.size ++
+        (E ++ ([0x44, 0x41, 0x54, 0x41, 0, 0, 0, 0, 0, 0, 0, 0] ++ (be32 ds ++ rest))))) := by
+    subst hQ; exact List.drop_left' rfl
+  have d36 : Q.drop 36 = be32 i.size ++ (E ++ ([0x44, 0x41, 0x54, 0x41, 0, 0, 0, 0, 0, 0, 0, 0] ++ (be32 ds ++ rest))) := by
+    have : 36 = 22 + 14 := rfl
+    rw [this, ← List.drop_drop, d22]; simp [be16]
+  have d40 : Q.drop 40 = E ++ ([0x44, 0x41, 0x54, 0x41, 0, 0, 0, 0, 0, 0, 0, 0] ++ (be32 ds ++ rest)) := by
+    have : 40 = 36 + 4 := rfl
+    rw [this, ← List.drop_drop, d36]; exact List.drop_left' (be32_length _)
+  have dE : Q.drop (40 + i.size + 12) = be32 ds ++ rest := by
+    have : 40 + i.size + 12 = 40 + (E.length + 12) := by omega
+    rw [this, ← List.drop_drop, d40, ← List.drop_drop, List.drop_left]; rfl
+  have hsz32 : i.size % 4294967296 = i.size := by omega
+  unfold ffoDecode
+  simp only [d36, rd32_be32_append, hsz32, d40, d22, rd16_be16_append, dE]
+  rw [if_neg (by omega), if_neg (by omega), if_neg (by omega)]
+  have ht : (E ++ ([0x44, 0x41, 0x54, 0x41, 0, 0, 0, 0, 0, 0, 0, 0] ++ (be32 ds ++ rest))).take i.size = E :=
+    List.take_left' (by omega)
+  rw [ht, hdec]
+  simp only
+  rw [if_neg (by omega)]
+  have : fc % 65536 = fc := by omega
+  have : ds % 4294967296 = ds := by omega
+  simp [*]
+
 -- ---------------------------------------------------------------- article list entries
 
 
